@@ -86,5 +86,5 @@ Proof.
   eexists [_], [_]. split; [reflexivity|]. split.
   - left. eexists. repeat split. exists (SInt 0). reflexivity.
   - eexists [_], []. split; [reflexivity|]. split; [|reflexivity].
-    left. eexists. repeat split. vm_compute. discriminate.
+    left. eexists. repeat split.
 Qed.
